@@ -68,7 +68,7 @@ def main():
                 "evidence_file": f"/verif/evidence/{pid}.json",
                 "replay_cmd_template": f"./check {pid} --replay {{path}}",
                 "engine": "tlc",
-                "level_claimed": {"category": "model_checking", "text": text, "design_ref": f"DESIGN.md section {ref}"},
+                "level_claimed": {"category": "model_checking", "text": text, "design_ref": f"DESIGN.md section {ref.split()[0]} (row {ref.split()[1]})"},
                 "level_note": "trusted: TLC 1.8.0, the reference semantics of spec/OdeExpr.tla + spec/Pipeline.tla, mpmath, numpy/jax/gcc; " + note,
                 "technique": tech,
             })
